@@ -59,6 +59,13 @@ type HistInput struct {
 	Tracers    int       `json:"tracers,omitempty"` // extra recording tracers (C14)
 	Init       []int     `json:"init,omitempty"`    // initial ordered active set (VerifSetActive)
 	SchemaRef  string    `json:"-"`                 // Gallina name of a shared schema definition
+	// schema growth: the machine starts with States; right before the top-level
+	// call number GrowAt it gets SetSchema(States ++ Grow) (new states: never
+	// Auto, referenced by no old state, Require only old or earlier new states)
+	// and the handler bindings GrowBindings (keys about new states only)
+	Grow         []HState `json:"grow,omitempty"`
+	GrowAt       int      `json:"grow_at,omitempty"`
+	GrowBindings [][]HKey `json:"grow_bindings,omitempty"`
 }
 
 // ------------------------------------------------------------ observation
@@ -266,9 +273,12 @@ func doCall(m *am.Machine, names am.S, c HCall) am.Result {
 }
 
 func histNames(in *HistInput) am.S {
-	names := make(am.S, len(in.States))
-	for i, s := range in.States {
-		names[i] = s.Name
+	names := make(am.S, 0, len(in.States)+len(in.Grow))
+	for _, s := range in.States {
+		names = append(names, s.Name)
+	}
+	for _, s := range in.Grow {
+		names = append(names, s.Name)
 	}
 	return names
 }
@@ -326,7 +336,7 @@ func runHistory(in *HistInput) (obs *HistObs) {
 		m.SemLogger().SetLevel(am.LogDecisions)
 		m.SemLogger().SetLogger(func(_ am.LogLevel, msg string, args ...any) { fmt.Fprintf(os.Stderr, msg+"\n", args...) })
 	}
-	if err := m.VerifyStates(names); err != nil {
+	if err := m.VerifyStates(names[:len(in.States)]); err != nil {
 		obs.Err = "verify: " + err.Error()
 		return obs
 	}
@@ -339,8 +349,8 @@ func runHistory(in *HistInput) (obs *HistObs) {
 		m.VerifSetActive(pick(names, in.Init))
 	}
 
-	// parsed schema + topology as the machine holds them
-	parsed := m.Schema()
+	// parsed schema + topology as the machine holds them (taken again after a
+	// schema growth)
 	idxOf := func(l am.S) []int {
 		ret := make([]int, 0, len(l))
 		for _, n := range l {
@@ -353,13 +363,23 @@ func runHistory(in *HistInput) (obs *HistObs) {
 		}
 		return ret
 	}
-	for _, n := range names {
-		p := parsed[n]
-		obs.Parsed = append(obs.Parsed, HState{Name: n, Auto: p.Auto, Multi: p.Multi,
-			Require: idxOf(p.Require), Add: idxOf(p.Add), Remove: idxOf(p.Remove),
-			After: idxOf(p.After)})
+	grown := false
+	snapshotSchema := func() {
+		parsed := m.Schema()
+		obs.Parsed = nil
+		cur := names[:len(in.States)]
+		if grown {
+			cur = names
+		}
+		for _, n := range cur {
+			p := parsed[n]
+			obs.Parsed = append(obs.Parsed, HState{Name: n, Auto: p.Auto, Multi: p.Multi,
+				Require: idxOf(p.Require), Add: idxOf(p.Add), Remove: idxOf(p.Remove),
+				After: idxOf(p.After)})
+		}
+		obs.Topology = idxOf(m.VerifTopology())
 	}
-	obs.Topology = idxOf(m.VerifTopology())
+	snapshotSchema()
 
 	// scripted, recording handlers
 	actIdx := 0
@@ -418,11 +438,7 @@ func runHistory(in *HistInput) (obs *HistObs) {
 		}
 		return a.Ret
 	}
-	for bi, b := range in.Bindings {
-		kind := ""
-		if bi < len(in.BindKinds) {
-			kind = in.BindKinds[bi]
-		}
+	bindOne := func(bi int, b []HKey, kind string) bool {
 		neg := map[string]am.HandlerNegotiation{}
 		fin := map[string]am.HandlerFinal{}
 		for _, k := range b {
@@ -464,6 +480,16 @@ func runHistory(in *HistInput) (obs *HistObs) {
 		}
 		if err != nil {
 			obs.Err = "bind: " + err.Error()
+			return false
+		}
+		return true
+	}
+	for bi, b := range in.Bindings {
+		kind := ""
+		if bi < len(in.BindKinds) {
+			kind = in.BindKinds[bi]
+		}
+		if !bindOne(bi, b, kind) {
 			return obs
 		}
 	}
@@ -481,7 +507,32 @@ func runHistory(in *HistInput) (obs *HistObs) {
 		}
 		return 3
 	}
-	for _, c := range in.Calls {
+	for ci, c := range in.Calls {
+		if len(in.Grow) > 0 && !grown && ci == in.GrowAt {
+			schema2 := am.Schema{}
+			for n, st := range schema {
+				schema2[n] = st
+			}
+			for _, g := range in.Grow {
+				schema2[g.Name] = am.State{Auto: g.Auto, Multi: g.Multi,
+					Require: pick(names, g.Require), Add: pick(names, g.Add),
+					Remove: pick(names, g.Remove), After: pick(names, g.After)}
+			}
+			if err := m.SetSchema(schema2, names); err != nil {
+				obs.Err = "setschema: " + err.Error()
+				return obs
+			}
+			grown = true
+			if os.Getenv("AMV_DEBUG_LOG") != "" {
+				fmt.Fprintln(os.Stderr, "after SetSchema: err =", m.Err())
+			}
+			snapshotSchema()
+			for gi, b := range in.GrowBindings {
+				if !bindOne(len(in.Bindings)+gi, b, "") {
+					return obs
+				}
+			}
+		}
 		var res am.Result
 		done := make(chan struct{})
 		go func() {
@@ -541,6 +592,24 @@ drainErrs:
 	}
 	obs.Events = events
 	obs.HLog = hlog
+	if len(in.Grow) > 0 {
+		// times taken before the growth are shorter: the new states were at 0
+		pad := func(t []uint64) []uint64 {
+			for t != nil && len(t) < len(names) {
+				t = append(t, 0)
+			}
+			return t
+		}
+		for i := range obs.Calls {
+			obs.Calls[i].Time = pad(obs.Calls[i].Time)
+		}
+		for i := range obs.Txs {
+			obs.Txs[i].Before, obs.Txs[i].After, obs.Txs[i].MachAfter = pad(obs.Txs[i].Before), pad(obs.Txs[i].After), pad(obs.Txs[i].MachAfter)
+		}
+		for i := range obs.HLog {
+			obs.HLog[i].Clock = pad(obs.HLog[i].Clock)
+		}
+	}
 	for _, e := range extraEv {
 		obs.Extra = append(obs.Extra, *e)
 	}
@@ -637,18 +706,19 @@ func coqHCase(in *HistInput, obs *HistObs) string {
 	if ql == 0 {
 		ql = 1000
 	}
-	sorted := make([]int, len(in.States))
+	allNames := histNames(in)
+	sorted := make([]int, len(allNames))
 	for i := range sorted {
 		sorted[i] = i
 	}
-	slices.SortFunc(sorted, func(a, b int) int { return strings.Compare(in.States[a].Name, in.States[b].Name) })
+	slices.SortFunc(sorted, func(a, b int) int { return strings.Compare(allNames[a], allNames[b]) })
 	schemaTerm := joinMap(obs.Parsed, coqSdef, ";\n   ")
 	if in.SchemaRef != "" {
 		schemaTerm = in.SchemaRef
 	}
 	fmt.Fprintf(&b, "{| h_schema := %s;\n h_topo := %s; h_sorted := %s; h_health := %s; h_exc := %d%%nat; h_qlimit := %d%%N;\n",
 		schemaTerm, coqNatList(obs.Topology), coqNatList(sorted), coqNatList(healthIdx(in)), exc, ql)
-	fmt.Fprintf(&b, " h_bindings := %s;\n", joinMap(in.Bindings, func(bd []HKey) string {
+	fmt.Fprintf(&b, " h_bindings := %s;\n", joinMap(slices.Concat(in.Bindings, in.GrowBindings), func(bd []HKey) string {
 		return joinMap(bd, coqHKey, "; ")
 	}, "; "))
 	fmt.Fprintf(&b, " h_actions := %s;\n", joinMap(in.Actions, func(a HAction) string {
